@@ -1495,6 +1495,7 @@ func crCode(err error) int {
 }
 
 type crSpec struct {
+	maxCalls int // >0: the caller stops after this many Read calls, whatever they returned
 	stream  string
 	genuine []byte
 	want    []byte // digest handed over (raw ctor)
@@ -1536,6 +1537,10 @@ func (g *gen) runCr(s crSpec) {
 	tab := newTab()
 	extra := 2
 	for i := 0; i < 20000; i++ {
+		if s.maxCalls > 0 && i >= s.maxCalls {
+			c.Note = "early"
+			break
+		}
 		buf := make([]byte, s.sizes[i%len(s.sizes)])
 		n, err := cr.Read(buf)
 		code := crCode(err)
@@ -1561,6 +1566,106 @@ func (g *gen) runCr(s crSpec) {
 }
 
 func sum(d []byte) []byte { s := sha256.Sum256(d); return s[:] }
+
+// badReader breaks the io.Reader contract: it claims to have read more bytes
+// than the buffer holds, or a negative number.
+type badReader struct {
+	data  []byte
+	delta int // what is added to the honest count on the second call
+	calls int
+}
+
+func (b *badReader) Read(p []byte) (int, error) {
+	b.calls++
+	n := copy(p, b.data)
+	b.data = b.data[n:]
+	if b.calls == 2 {
+		if b.delta < 0 {
+			return b.delta, nil
+		}
+		return len(p) + b.delta, nil
+	}
+	if len(b.data) == 0 {
+		return n, io.EOF
+	}
+	return n, nil
+}
+
+// zeros yields n zero bytes without holding them.
+type zeros struct{ left int64 }
+
+func (z *zeros) Read(p []byte) (int, error) {
+	if z.left == 0 {
+		return 0, io.EOF
+	}
+	n := int64(len(p))
+	if n > z.left {
+		n = z.left
+	}
+	for i := int64(0); i < n; i++ {
+		p[i] = 0
+	}
+	z.left -= n
+	return int(n), nil
+}
+
+// hugeCase: a genuine stream of more than 2^31 bytes with its length declared
+// (thorough tier): a byte count kept in anything narrower than 64 bits shows.
+func (g *gen) hugeCase() {
+	const total = int64(1)<<31 + 5
+	h := sha256.New()
+	io.Copy(h, &zeros{left: total})
+	want := h.Sum(nil)
+	for _, n := range []int64{total, -1} {
+		cr := hashutil.NewSHA256CheckReader(&zeros{left: total}, want, n)
+		got, err := io.Copy(io.Discard, cr)
+		code := 1
+		if err != nil {
+			code = crCode(err)
+		}
+		c := &Case{Stream: "cr-huge", Ctor: "raw", N: n, Want: hex.EncodeToString(want),
+			Note: fmt.Sprintf("genuine stream of %d zero bytes, %d handed on", total, got)}
+		c.Trace = TraceJ{TraceEntry{C: code}}
+		g.emit(c)
+	}
+}
+
+// contractCases: what CheckReader does over a reader that violates the
+// contract. Observed only (the model has no such reader): a panic or an error
+// is fine, a certified end-of-stream is not.
+func (g *gen) contractCases() {
+	for _, delta := range []int{1, 1 << 20, -1} {
+		for _, n := range []int64{-1, 8} {
+			d := []byte("12345678")
+			c := &Case{Stream: "cr-contract", Ctor: "raw", N: n, Genuine: segsOf(d), Want: hex.EncodeToString(sum(d)),
+				Note: fmt.Sprintf("underlying reader returns len(buf)%+d on its second call", delta)}
+			cr := hashutil.NewSHA256CheckReader(&badReader{data: d, delta: delta}, sum(d), n)
+			for i := 0; i < 6; i++ {
+				var nn int
+				var err error
+				var pan interface{}
+				func() {
+					defer func() { pan = recover() }()
+					buf := make([]byte, 3)
+					nn, err = cr.Read(buf)
+				}()
+				code := crCode(err)
+				if pan != nil {
+					code = 98
+					c.Note += "; panic: " + short(fmt.Sprint(pan))
+				}
+				if nn < 0 || nn > 3 {
+					nn = 0
+				}
+				c.Trace = append(c.Trace, TraceEntry{C: code, d: make([]byte, nn)})
+				if code != 0 {
+					break
+				}
+			}
+			g.emit(c)
+		}
+	}
+}
 
 func (g *gen) checkReaders(scale, deep int) {
 	r := g.r
@@ -1661,6 +1766,43 @@ func (g *gen) checkReaders(scale, deep int) {
 				}
 			}
 		}
+	}
+	// callers that stop early: after k calls, and after exactly the declared number of bytes
+	for _, L := range []int{2, 5, 33} {
+		d := newStream(r, L)
+		bad := append([]byte{}, d...)
+		bad[L/2] ^= 0x10
+		for _, deliver := range [][]byte{d, bad, d[:L-1], append(append([]byte{}, d...), 7)} {
+			for _, n := range declared(d) {
+				for k := 1; k <= 3; k++ {
+					g.runCr(crSpec{stream: "cr-early", genuine: d, want: sum(d), ctor: "raw", n: n, maxCalls: k,
+						plan: splitPlan(r, deliver, r.Intn(4), r.Intn(2)), sizes: [][]int{{1}, {7}, {L}}[k%3]})
+				}
+				// io.ReadFull-like: exactly len(d) bytes in one buffer, then no further call
+				g.runCr(crSpec{stream: "cr-early", genuine: d, want: sum(d), ctor: "raw", n: n, maxCalls: 1,
+					plan: splitPlan(r, deliver, 0, 0), sizes: []int{L}})
+			}
+		}
+	}
+	// a reader that keeps returning (0, nil)
+	for _, zeros := range []int{1, 30, 300} {
+		d := newStream(r, 20)
+		var p []Chunk
+		for z := 0; z < zeros; z++ {
+			p = append(p, plan(nil, stNil, 0))
+		}
+		p = append(p, plan(d[:10], stNil, 0))
+		for z := 0; z < zeros; z++ {
+			p = append(p, plan(nil, stNil, 0))
+		}
+		p = append(p, plan(d[10:], stNil, 0), plan(nil, stEOF, 0))
+		for _, n := range declared(d) {
+			g.runCr(crSpec{stream: "cr-zero", genuine: d, want: sum(d), ctor: "raw", n: n, plan: p, sizes: []int{7}})
+		}
+	}
+	g.contractCases()
+	if deep > 1 {
+		g.hugeCase()
 	}
 	// the "sha256:<hex>" constructor
 	{
